@@ -366,11 +366,15 @@ def _arith_pair(rng, dtype, nonzero=True, big=False):
 
 
 def gen_div_mode(rng, n):
+    """integer tensors only: the float32 detour; operands of magnitude >= 2^24 (the known defect class) are rare"""
     for i in range(n):
-        dt = rng.choice(["int64", "int32", "uint8", "float32"])
+        dt = rng.choice(["int64", "int32", "uint8"])
         a, b = _arith_pair(rng, dt)
-        if dt == "float32":       # keep quotients exact: divisor a power of two
-            b["data"] = [rng.choice([-4.0, -2.0, -1.0, 1.0, 2.0, 4.0, 8.0]) for _ in b["data"]]
+        if dt == "int64" and i % 12 == 0:
+            a["data"] = [v * rng.choice([1, 2 ** 24 + 1, 2 ** 40 + 7]) + rng.choice([0, 1]) for v in a["data"]]
+        elif dt != "uint8" and i % 3 == 0:          # larger but still exactly representable operands
+            a["data"] = [v * rng.choice([1, 4099, 65537, 838860]) for v in a["data"]]
+            b["data"] = [v * rng.choice([1, 1, 257, 4099]) for v in b["data"]]
         yield [a, b], {"rounding_mode": rng.choice(["trunc", "floor"])}
 
 
